@@ -151,6 +151,13 @@ func c16LaneH2(t *testing.T, s *verifh.Session, profile string, n int, need map[
 			tc.Limit = 0
 		}
 		nb := verifh.C16Neighbourise(r, tc)
+		if r.Intn(5) == 0 { // round 7: the value-edge class (white space beyond SP / HTAB at the edges of values)
+			if tc.Header == nil {
+				tc.Header = http.Header{}
+			}
+			verifh.C16AddEdgeValues(r, tc.Header)
+			s.Count("value-edge-class")
+		}
 		prev = tc
 		again := r.Intn(4) == 0
 		fields, fields2, err, perr := c16RunH2Again(conn, tc, again)
